@@ -42,10 +42,9 @@ def toGenClosing (c : Closing) : GClosing :=
   { txid := c.txid, our_output := c.our, htlc_outputs := c.htlcOutputs, htlc_spents := c.htlcSpents,
     second_level_htlc_outputs := c.second.map toGenSecond }
 
-/-- the twelve fields of `monitor::State` that the translated functions read or write (the funding txids / vouts are
-    only read by `on_transaction_end`) -/
+/-- the fourteen fields of `monitor::State` that the translated functions read or write -/
 def toGen (s : Monitor.State) : GState :=
-  { height := s.height, funding_inputs := s.fundingInputs, funding_height := s.fundingHeight, funding_outpoint := s.fundingOutpoint.map toGenOp,
+  { height := s.height, funding_txids := s.fundingTxids, funding_vouts := s.fundingVouts, funding_inputs := s.fundingInputs, funding_height := s.fundingHeight, funding_outpoint := s.fundingOutpoint.map toGenOp,
     funding_double_spent_height := s.dsHeight, mutual_closing_height := s.mutualHeight,
     unilateral_closing_height := s.uniHeight, closing_outpoints := s.closing.map toGenClosing,
     closing_swept_height := s.closingSweptHeight, our_output_swept_height := s.ourSweptHeight,
